@@ -247,11 +247,8 @@ func genCDense(g *vlib.G) {
 			var v verdict
 			for r := 1; r <= n; r++ {
 				for c := 1; c <= n; c++ {
-					for _, d := range [][2]int{{0, 0}, {1, 2}, {-1, 0}, {0, -1}} {
-						mr, mc := r+d[0], c+d[1]
-						if mr < 1 || mc < 1 {
-							continue
-						}
+					for rs := 0; rs < (n+1)*(n+1); rs++ { // every receiver shape against every source shape
+						mr, mc := 1+rs/(n+1), 1+rs%(n+1)
 						a := ka.build(newCM(r, c, 1))
 						ld := mc + 2
 						back := cpoisoned((mr + 1) * ld)
